@@ -11,7 +11,8 @@
    gh_cgdp, heur_comhost.  The must-host clause is FALSE of these three methods (they never
    read `hints`): [must_host_ignored_refuted].  The ILP-based methods are covered by
    Prop_C24 (feasible ILP solutions decode to valid mappings). *)
-From PyDcop Require Import Base M_Dist P_Dist.
+From PyDcop Require Import Base M_Dist P_Dist M_Dist2 P_Dist2 M_Ilp P_Dist3.
+From Coq Require Import Permutation.
 
 (* oneagent: not capacity-aware; additionally no agent hosts two computations *)
 Theorem valid_or_impossible_oneagent : forall I,
@@ -57,11 +58,98 @@ Example c23_nonvacuous :
   oneagent I = Impossible.
 Proof. vm_compute. repeat split; repeat constructor; simpl; intuition lia. Qed.
 
-(* adhoc: modelled (M_Dist.adhoc, all three loops, retry, hints) and tied to the code by the
-   correspondence run; its validity statement is NOT proved in Coq (partial).  What is proved:
-   with a host_with hint of the SECP shape the returned mapping can exceed a capacity. *)
+(* adhoc (M_Dist.adhoc: all three loops, retry, hints; tied to the code by the correspondence
+   run).  With a host_with hint of the SECP shape the returned mapping can exceed a capacity
+   (known finding C23-adhoc-secp-hostwith); [valid_or_impossible_adhoc] below is the full
+   statement under the exact guard [secp_free] that excludes that shape. *)
 Theorem adhoc_secp_refuted :
   wf witness_secp /\
   exists m, adhoc witness_secp [[0; 100]] [0%nat] = Ok m /\ hosts_once witness_secp m /\
             ~ within_capacity witness_secp m.
 Proof. exact adhoc_secp_refuted_l. Qed.
+
+(* ------------------------------------------------------------------ deepening (P_Dist2 / P_Dist3) *)
+(* adhoc, full statement.  Guards (boolean predicates on the input, M_Dist2):
+     hints_wfb I  the hints are well-formed: must_host keys are distinct declared agents, every
+                  must-hosted computation exists and is listed once, host_with names computations;
+     secp_free I  no non-must-hosted factor has a host_with group that is exactly one variable
+                  (the input shape of finding C23-adhoc-secp-hostwith, cf. adhoc_secp_refuted);
+   [shuffles_ok]: every draw of shuffle(nodes) is a permutation of the nodes; [choices] (the
+   draws of choice()) is arbitrary.  Any other result (another exception, Distribution's
+   ValueError = Crash 3, fuel) is excluded; the retry terminates after attempt 3 by construction. *)
+Theorem valid_or_impossible_adhoc : forall I shuf choices,
+  wf I -> hints_wfb I = true -> secp_free I = true -> shuffles_ok I shuf ->
+  match adhoc I shuf choices with
+  | Ok m => hosts_once I m /\ agents_declared I m /\ must_host_honoured I m /\ within_capacity I m
+  | Impossible => True
+  | _ => False
+  end.
+Proof. exact adhoc_valid. Qed.
+
+(* must-host alone needs neither the secp guard nor unique names nor well-behaved shuffles:
+   EVERY mapping adhoc returns honours the (well-formed) must-host hints *)
+Theorem must_host_honoured_adhoc : forall I shuf choices m,
+  hints_wfb I = true -> adhoc I shuf choices = Ok m -> must_host_honoured I m.
+Proof. exact adhoc_must_host. Qed.
+
+(* gh_cgdp ignores `hints` (must_host_ignored_refuted) but pins on zero hosting cost: every
+   computation some agent hosts for free is on the FIRST such agent; so must-host hints that are
+   also expressed as zero hosting costs ([must_by_cost]) are honoured *)
+Theorem gh_cgdp_pins_zero_cost : forall cle I rnd m, gh_cgdp cle I rnd = Ok m ->
+  forall nd ag, In nd (i_nodes I) ->
+    find (fun a => hosting_cost a (n_id nd) =? 0) (i_agents I) = Some ag -> In (n_id nd, g_id ag) m.
+Proof. exact gh_cgdp_pins. Qed.
+
+Theorem must_host_by_cost_gh_cgdp : forall cle I rnd m,
+  must_by_cost I -> gh_cgdp cle I rnd = Ok m -> must_host_honoured I m.
+Proof. exact gh_cgdp_must_host_by_cost. Qed.
+
+(* ILP methods (oilp_cgdp, ilp_fgdp), solver = oracle: ANY integral point satisfying the rows
+   (M_Ilp.*_feasible, tied to the real PuLP problem by C24's correspondence run) whose
+   "hosted once" rows range over the declared agents decodes to a valid mapping; zero hosting
+   costs pin; ilp_fgdp additionally gives every agent a computation.  must-host: refuted. *)
+Theorem ilp_feasible_decodes_valid_oilp : forall G D,
+  wf (g_inst G) -> assigns_declared (g_inst G) D -> oilp_feasible G D = true ->
+  let I := g_inst G in let m := decode I D in
+  hosts_once I m /\ agents_declared I m /\ within_capacity I m /\
+  (forall g nd, In g (i_agents I) -> In nd (i_nodes I) -> hosting_cost g (n_id nd) = 0 ->
+                In (n_id nd, g_id g) m).
+Proof. exact oilp_feasible_decodes_valid_l. Qed.
+
+Theorem ilp_feasible_decodes_valid_fgdp : forall G D,
+  wf (g_inst G) -> assigns_declared (g_inst G) D -> fgdp_feasible G D = true ->
+  let I := g_inst G in let m := decode I D in
+  hosts_once I m /\ agents_declared I m /\ within_capacity I m /\
+  (forall g, In g (i_agents I) -> exists c, In (c, g_id g) m).
+Proof. exact fgdp_feasible_decodes_valid_l. Qed.
+
+Theorem ilp_must_host_ignored_refuted :
+  let G := mkG witness_mh [] in
+  exists D, assigns_declared witness_mh D /\ fgdp_feasible G D = true /\ oilp_feasible G D = true /\
+            ~ must_host_honoured witness_mh (decode witness_mh D).
+Proof. exact ilp_must_host_ignored_refuted_l. Qed.
+
+(* non-vacuity for adhoc: must-host + (non-SECP) host_with hints, tight capacities (strict `>`
+   test), first attempt fails in the scoring loop, the retry with the second shuffle succeeds;
+   without the second shuffle all four attempts fail *)
+Example c23_adhoc_nonvacuous :
+  let I := mkInst [mkNode 0 0 2 [[100; 0]]; mkNode 1 0 2 [[100; 1]]; mkNode 2 0 1 [];
+                   mkNode 100 1 3 [[100; 0]; [100; 1]]]
+                  [mkAg 0 5 1 [] 1 []; mkAg 1 5 1 [] 1 []] [] 0
+                  [(1, [1])] [(2, [0]); (0, [2])] in
+  wf I /\ hints_wfb I = true /\ secp_free I = true /\
+  shuffles_ok I [[0; 1; 2; 100]; [100; 0; 2; 1]] /\
+  adhoc I [[0; 1; 2; 100]; [100; 0; 2; 1]] [] = Ok [(1, 1); (0, 1); (100, 0); (2, 0)] /\
+  adhoc_try 1 I [[0; 1; 2; 100]; [100; 0; 2; 1]] [] = Impossible /\
+  adhoc I [[0; 1; 2; 100]] [] = Impossible /\
+  hints_wfb witness_secp = true /\ secp_free witness_secp = false.
+Proof.
+  cbv zeta. split; [split; simpl; repeat constructor; simpl; intuition lia|].
+  split; [reflexivity|]. split; [reflexivity|]. split.
+  - repeat constructor. simpl.
+    apply (perm_trans (l' := [0; 100; 2; 1])); [apply perm_swap|].
+    apply perm_skip. apply (perm_trans (l' := [2; 100; 1])); [apply perm_swap|].
+    apply (perm_trans (l' := [2; 1; 100])); [apply perm_skip; apply perm_swap|].
+    apply (perm_trans (l' := [1; 2; 100])); [apply perm_swap|]. apply Permutation_refl.
+  - vm_compute. repeat split; reflexivity.
+Qed.
